@@ -1453,3 +1453,167 @@ pub fn record_fault(out: &mut Out, tier: &str, seed: u64) {
         fault_events::<V5>(out, &mut rng, &p);
     }
 }
+
+// ------------------------------------------------------------------------------------------------
+// EXTRA: the poll decoder's CALLER-HELD STATE against the implementation-shaped specification
+// (PollDecoder.tla).  The future is dropped after every poll, so the public state
+// (Header{control_byte, var_idx, var_int} / Body{header, total, idx, buf.len()}) can be read between any two
+// polls; every transport call and every poll return is an event, and each PollRet carries the state snapshot.
+fn poll_state_json<F: Fam>(st: &GenericPollPacketState<F::Header>) -> J {
+    match st {
+        GenericPollPacketState::Header(h) => json!({"ph": "Hdr", "cb": h.control_byte.map(|b| b as i64).unwrap_or(-1),
+                                                    "vi": h.var_idx, "vn": h.var_int}),
+        GenericPollPacketState::Body(b) => json!({"ph": "Body", "h": F::header_json(&b.header), "total": b.total,
+                                                  "idx": b.idx, "blen": b.buf.len()}),
+    }
+}
+
+/// the remaining length a stream declares (None while the length field is incomplete or over-long)
+fn declared_rl(b: &[u8]) -> Option<usize> {
+    let mut v = 0usize;
+    for (i, x) in b.iter().skip(1).take(4).enumerate() {
+        v |= ((*x & 0x7F) as usize) << (7 * i);
+        if *x & 0x80 == 0 {
+            return Some(v);
+        }
+    }
+    None
+}
+
+pub fn poll_impl_run<F: Fam>(out: &mut Out, run: u64, bytes: &[u8], script: Vec<RStep>, dflt: RStep,
+                             fault: Option<(usize, RStep, usize)>) {
+    // PollDecoder.tla holds the body buffer cell by cell: streams that declare a large body are left to the
+    // representation-free Trace_Poll
+    if declared_rl(bytes).unwrap_or(0) > 400 {
+        return;
+    }
+    let stream = Arc::new(bytes.to_vec());
+    out.boundary();
+    out.hold = true;
+    out.ev(json!({"ev": "Reset", "run_start": true, "run": run, "fam": F::NAME, "bytes": jbytes(bytes)}));
+    let mut st: GenericPollPacketState<F::Header> = Default::default();
+    let mut rd = ScriptedReader::new(stream.clone(), script, dflt);
+    rd.fault_at = fault;
+    let waker = noop_waker();
+    let mut cx = std::task::Context::from_waker(&waker);
+    let mut seen = 0usize;
+    let mut polls = 0usize;
+    loop {
+        polls += 1;
+        let r = {
+            let mut fut = GenericPollPacket::new(&mut st, &mut rd);
+            guarded(|| std::pin::Pin::new(&mut fut).poll(&mut cx))
+            // the future is dropped here: everything the decoder knows is in `st`
+        };
+        for l in &rd.log[seen..] {
+            out.ev(json!({"ev": "Read", "run": run, "cap": l.cap, "ans": l.ans, "n": l.n, "pos": l.pos,
+                          "kind": l.kind.map(io_kind_name).unwrap_or_default()}));
+        }
+        seen = rd.log.len();
+        let snap = poll_state_json::<F>(&st);
+        match r {
+            Err(m) => {
+                out.ev(json!({"ev": "PollRet", "run": run, "ret": "ready", "out": jpanic(&m), "st": snap}));
+                break;
+            }
+            Ok(std::task::Poll::Pending) => {
+                out.ev(json!({"ev": "PollRet", "run": run, "ret": "pending", "st": snap}));
+                if polls >= MAX_POLLS {
+                    out.ev(json!({"ev": "PollRet", "run": run, "ret": "ready", "out": {"k": "spin"}, "st": snap}));
+                    break;
+                }
+            }
+            Ok(std::task::Poll::Ready(Ok((total, body, p)))) => {
+                let bb = body_bytes(&body);
+                out.ev(json!({"ev": "PollRet", "run": run, "ret": "ready", "st": snap,
+                              "out": {"k": "ok", "v": F::to_json(&p), "total": total, "body": jbytes(&bb)}}));
+                break;
+            }
+            Ok(std::task::Poll::Ready(Err(e))) => {
+                out.ev(json!({"ev": "PollRet", "run": run, "ret": "ready", "st": snap, "out": F::err_json(&e)}));
+                break;
+            }
+        }
+    }
+    out.hold = false;
+}
+
+fn poll_impl_family<F: GenFam>(out: &mut Out, tier: &str, seed: u64) {
+    let mut rng = Rng::new(seed ^ 0x1A91);
+    let mut run = 0u64;
+    let pend1 = |n: usize| -> Vec<RStep> { (0..n + 2).flat_map(|_| [RStep::Pending, RStep::Data(1)]).collect() };
+    // (a) the short streams of C05 (every type, malformed headers, cut streams): a snapshot between any two bytes, and
+    //     every way of cutting the stream into two reads
+    let mut shorts = short_streams::<F>(&mut rng);
+    shorts.sort();
+    shorts.dedup();
+    for s in &shorts {
+        run += 1;
+        poll_impl_run::<F>(out, run, s, pend1(s.len()), RStep::Data(1), None);
+        for k in 1..s.len() {
+            run += 1;
+            poll_impl_run::<F>(out, run, s, vec![RStep::Data(k), RStep::Pending], RStep::Data(usize::MAX), None);
+        }
+    }
+    // (b) seeded packets of every type (<= 300 bytes), catalogue malformations, corruptions, wide length fields:
+    //     random schedules, a transport fault at a random position, the stream cut short
+    let n = if tier == "thorough" { 6000 } else { 500 };
+    let mut b = Budget { big: 0, huge: 0 };
+    let kinds = [std::io::ErrorKind::ConnectionReset, std::io::ErrorKind::TimedOut, std::io::ErrorKind::BrokenPipe,
+                 std::io::ErrorKind::Interrupted, std::io::ErrorKind::WouldBlock];
+    let mut i = 0usize;
+    while i < n {
+        i += 1;
+        let v = match i % 4 {
+            0 => wide_frame::<F>(&mut rng, &mut b, i),
+            _ => input_for::<F>(&mut rng, &mut b, i),
+        };
+        if v.is_empty() || v.len() > 300 {
+            continue;
+        }
+        let (sc, dflt) = random_schedule(&mut rng, v.len());
+        run += 1;
+        poll_impl_run::<F>(out, run, &v, sc, dflt, None);
+        if i % 5 == 0 {
+            run += 1;
+            poll_impl_run::<F>(out, run, &v, pend1(v.len()), RStep::Data(1), None);
+        }
+        if i % 3 == 0 {
+            let at = rng.below(v.len() as u64 + 1) as usize;
+            let (sc, dflt) = random_schedule(&mut rng, v.len());
+            run += 1;
+            poll_impl_run::<F>(out, run, &v, sc, dflt, Some((at, RStep::Err(*rng.pick(&kinds)), rng.below(2) as usize)));
+            let cut = rng.below(v.len() as u64) as usize;
+            let (sc, dflt) = random_schedule(&mut rng, cut);
+            run += 1;
+            poll_impl_run::<F>(out, run, &v[..cut], sc, dflt, None);
+        }
+    }
+    // (c) catalogue malformations of small packets, whole and cut short
+    let types = F::types();
+    let npk = if tier == "thorough" { 200 } else { 24 };
+    for i in 0..npk {
+        let p = F::gen(&mut rng, &mut b, types[i % types.len()]);
+        let Some(e) = enc::<F>(&p).1 else { continue };
+        if e.len() > 150 {
+            continue;
+        }
+        let Some(fr) = crate::tokens::tokenize(F::NAME, &e) else { continue };
+        for m in crate::tokens::catalogue(&fr, &mut rng) {
+            if m.bytes.is_empty() || m.bytes.len() > 300 {
+                continue;
+            }
+            let (sc, dflt) = random_schedule(&mut rng, m.bytes.len());
+            run += 1;
+            poll_impl_run::<F>(out, run, &m.bytes, sc, dflt, None);
+        }
+    }
+}
+
+pub fn record_pollimpl(out: &mut Out, tier: &str, seed: u64, fam: &str) {
+    if fam == "v5" {
+        poll_impl_family::<V5>(out, tier, seed);
+    } else {
+        poll_impl_family::<V3>(out, tier, seed);
+    }
+}
